@@ -1106,6 +1106,17 @@ func (e *engine) Gen(r *rand.Rand, n int, tier string, w *bufio.Writer) {
 							emit("leavestream %s %s", Hx(id), Hx(m))
 						}
 					}
+					if r.Intn(2) == 0 {
+						// the compaction timer fires after the node has left: the left marker must
+						// survive as an internal entry, and a late observer must still see a leave
+						emit("delete %s %s", Hx(id), Hx(Pick(r, keys)))
+						emit("compact %s 1", Hx(id))
+						for _, m := range al {
+							if m != id && r.Intn(2) == 0 {
+								emit("join %s %s 1", Hx(m), Hx(id))
+							}
+						}
+					}
 				case 1:
 					emit("crash %s", Hx(id))
 				case 2, 3:
